@@ -73,7 +73,11 @@ func autoDetectPacketSize(r io.Reader) (packetSize int, err error) {
 				return
 			} else if n == -1 {
 				var ls = packetSize - (l - packetSize)
-				if _, err = r.Read(make([]byte, ls)); err != nil {
+				// A reader may return fewer bytes than requested: read until the packet boundary is reached
+				// A stream that ends before it is handled when fetching the next packet
+				if _, err = io.ReadFull(r, make([]byte, ls)); err == io.ErrUnexpectedEOF {
+					err = nil
+				} else if err != nil {
 					err = fmt.Errorf("astits: reading %d bytes to sync reader failed: %w", ls, err)
 					return
 				}
@@ -99,7 +103,11 @@ func peek(r io.Reader, b []byte) (shouldRewind bool, err error) {
 		return false, nil
 	}
 
-	_, err = r.Read(b)
+	// A reader may return fewer bytes than requested: read until b is full
+	// A stream shorter than b is not an error here
+	if _, err = io.ReadFull(r, b); err == io.ErrUnexpectedEOF {
+		err = nil
+	}
 	shouldRewind = true
 	return
 }
